@@ -33,6 +33,18 @@ type c17Op struct {
 	POrigin string `json:"p_origin,omitempty"` // literal | var | concat | runtime
 	COrigin string `json:"c_origin,omitempty"`
 	Flag    bool   `json:"flag,omitempty"` // value of the computed append flag (appendVar)
+	Spell   string `json:"spell,omitempty"` // "" | dot (./p) | updown (sub/../p): another spelling of the same file
+}
+
+// spelled returns the path as the program spells it; the model always uses Path.
+func (o *c17Op) spelled() string {
+	switch o.Spell {
+	case "dot":
+		return "./" + o.Path
+	case "updown":
+		return "sub/../" + o.Path
+	}
+	return o.Path
 }
 
 type c17Hist struct {
@@ -207,23 +219,48 @@ func c17Gen(rng *gen.Rng, population string) *c17Hist {
 	h.Ops = append(h.Ops, c17Op{Kind: "ext-mkdir", Path: "sub"})
 	n := rng.Range(1, 25)
 	cuts := rng.Intn(3)
+	burst := 0
+	burstPath := ""
 	for i := 0; i < n; i++ {
 		p := rng.Pick(paths)
-		render := rng.Pick([]string{"top", "top", "funcparam", "funcglobal", "if", "for"})
+		// bursts: several consecutive operations on ONE file in straight-line code
+		// (no call, branch or loop in between), with changing operand origins and
+		// spellings — the situation in which state kept by the emitter between
+		// operations (a remembered result, a reused helper) becomes visible
+		if burst == 0 && rng.Chance(12) {
+			burst = rng.Range(3, 6)
+			burstPath = p
+		}
+		inBurst := burst > 0
+		if inBurst {
+			burst--
+			p = burstPath
+		}
+		render := rng.Pick([]string{"top", "direct", "direct", "direct", "funcparam", "funcglobal", "funcdirect", "if", "ifdirect", "for", "fordirect", "shared", "shared"})
+		if inBurst {
+			render = rng.Pick([]string{"direct", "direct", "top"})
+		}
+		spell := ""
+		if rng.Chance(map[bool]int{true: 40, false: 15}[inBurst]) && !strings.HasPrefix(p, "-") && !strings.HasPrefix(p, " ") && !strings.HasPrefix(p, "~") {
+			spell = rng.Pick([]string{"dot", "updown"})
+		}
 		k := rng.Intn(100)
+		if inBurst {
+			k = rng.Pick2([]int{5, 35, 60, 60, 80, 80}) // write, append, read, read, exists, exists
+		}
 		switch {
 		case k < 22:
-			h.Ops = append(h.Ops, c17Op{Kind: "write", Path: p, Content: content(), Render: render, POrigin: origin(p), COrigin: origin("")})
+			h.Ops = append(h.Ops, c17Op{Kind: "write", Spell: spell, Path: p, Content: content(), Render: render, POrigin: origin(p), COrigin: origin("")})
 			files[p] = true
 		case k < 30:
-			h.Ops = append(h.Ops, c17Op{Kind: "writeF", Path: p, Content: content(), Render: render, POrigin: origin(p), COrigin: origin("")})
+			h.Ops = append(h.Ops, c17Op{Kind: "writeF", Spell: spell, Path: p, Content: content(), Render: render, POrigin: origin(p), COrigin: origin("")})
 			files[p] = true
 		case k < 46:
-			h.Ops = append(h.Ops, c17Op{Kind: "append", Path: p, Content: content(), Render: render, POrigin: origin(p), COrigin: origin("")})
+			h.Ops = append(h.Ops, c17Op{Kind: "append", Spell: spell, Path: p, Content: content(), Render: render, POrigin: origin(p), COrigin: origin("")})
 			files[p] = true
 		case k < 54:
 			fl := rng.Chance(50)
-			h.Ops = append(h.Ops, c17Op{Kind: "appendVar", Path: p, Content: content(), Render: render, POrigin: origin(p), COrigin: origin(""), Flag: fl})
+			h.Ops = append(h.Ops, c17Op{Kind: "appendVar", Spell: spell, Path: p, Content: content(), Render: render, POrigin: origin(p), COrigin: origin(""), Flag: fl})
 			files[p] = true
 		case k < 74:
 			if !files[p] {
@@ -231,7 +268,7 @@ func c17Gen(rng *gen.Rng, population string) *c17Hist {
 				h.Ops = append(h.Ops, c17Op{Kind: "write", Path: p, Content: content(), Render: "top", POrigin: "literal", COrigin: "literal"})
 				files[p] = true
 			}
-			h.Ops = append(h.Ops, c17Op{Kind: "read", Path: p, Render: render, POrigin: origin(p)})
+			h.Ops = append(h.Ops, c17Op{Kind: "read", Spell: spell, Path: p, Render: render, POrigin: origin(p)})
 		case k < 90:
 			q := p
 			if rng.Chance(25) {
@@ -240,7 +277,7 @@ func c17Gen(rng *gen.Rng, population string) *c17Hist {
 					q = "absent.txt"
 				}
 			}
-			h.Ops = append(h.Ops, c17Op{Kind: "exists", Path: q, Render: render, POrigin: origin(q)})
+			h.Ops = append(h.Ops, c17Op{Kind: "exists", Spell: map[bool]string{true: spell, false: ""}[q == p], Path: q, Render: render, POrigin: origin(q)})
 		case k < 94:
 			if cuts > 0 {
 				cuts--
@@ -374,9 +411,16 @@ func (h *c17Hist) render(seed uint64) []*c17Segment {
 	segs := []*c17Segment{}
 	cur := &c17Segment{Seeds: map[string]string{}}
 	var sb strings.Builder
+	usesShared := false
+	const sharedDefs = "func shw(p string, s string, a bool) {\nwrite(p, s, a)\n}\nfunc shw2(p string, s string) {\nwrite(p, s)\n}\nfunc shr(p string) string {\nx := read(p)\nreturn x\n}\nfunc she(p string) bool {\nreturn exists(p)\n}\n"
 	flush := func() {
 		fmt.Fprintf(&sb, "print(\"<<END>>\")\n")
 		cur.Program = sb.String()
+		if usesShared {
+			// one set of functions used by many operations of this script
+			cur.Program = sharedDefs + cur.Program
+			usesShared = false
+		}
 		cur.After = m.clone()
 		segs = append(segs, cur)
 		cur = &c17Segment{Seeds: map[string]string{}}
@@ -408,6 +452,21 @@ func (h *c17Hist) render(seed uint64) []*c17Segment {
 	}
 	wrap := func(render string, id int, body string, params [][2]string) string {
 		// params: (name, argument expression); body uses the names
+		if strings.HasSuffix(render, "direct") {
+			// the operands stand directly in the builtin call (the form the tests and the README use)
+			for _, p := range params {
+				body = strings.ReplaceAll(body, p[0], p[1])
+			}
+			switch render {
+			case "funcdirect":
+				return fmt.Sprintf("func fn%d() {\n%s}\nfn%d()\n", id, body, id)
+			case "ifdirect":
+				return "if true {\n" + body + "}\n"
+			case "fordirect":
+				return fmt.Sprintf("for it%d := 0; it%d < 1; it%d++ {\n%s}\n", id, id, id, body)
+			}
+			return body
+		}
 		switch render {
 		case "funcparam":
 			ps, as := []string{}, []string{}
@@ -451,7 +510,7 @@ func (h *c17Hist) render(seed uint64) []*c17Segment {
 			delete(m.Files, op.Path)
 		case "write", "writeF", "append", "appendVar":
 			var pre strings.Builder
-			pe := operand(id, "p", op.POrigin, op.Path, &pre)
+			pe := operand(id, "p", op.POrigin, op.spelled(), &pre)
 			ce := operand(id, "c", op.COrigin, op.Content, &pre)
 			pn, cn := fmt.Sprintf("wp%d", id), fmt.Sprintf("wc%d", id)
 			call := ""
@@ -474,7 +533,25 @@ func (h *c17Hist) render(seed uint64) []*c17Segment {
 				isAppend = op.Flag
 			}
 			sb.WriteString(pre.String())
-			sb.WriteString(wrap(op.Render, id, call, [][2]string{{pn, pe}, {cn, ce}}))
+			if op.Render == "shared" {
+				usesShared = true
+				switch op.Kind {
+				case "write":
+					fmt.Fprintf(&sb, "shw2(%s, %s)\n", pe, ce)
+				case "writeF":
+					fmt.Fprintf(&sb, "shw(%s, %s, false)\n", pe, ce)
+				case "append":
+					fmt.Fprintf(&sb, "shw(%s, %s, true)\n", pe, ce)
+				default:
+					cond := "2 < 1"
+					if op.Flag {
+						cond = "1 < 2"
+					}
+					fmt.Fprintf(&sb, "fl%d := %s\nshw(%s, %s, fl%d)\n", id, cond, pe, ce, id)
+				}
+			} else {
+				sb.WriteString(wrap(op.Render, id, call, [][2]string{{pn, pe}, {cn, ce}}))
+			}
 			if isAppend {
 				m.Files[op.Path] = m.Files[op.Path] + op.Content + "\n"
 			} else {
@@ -483,10 +560,21 @@ func (h *c17Hist) render(seed uint64) []*c17Segment {
 			cur.OpIdx = append(cur.OpIdx, i)
 		case "read":
 			var pre strings.Builder
-			pe := operand(id, "p", op.POrigin, op.Path, &pre)
+			pe := operand(id, "p", op.POrigin, op.spelled(), &pre)
 			pn := fmt.Sprintf("rp%d", id)
 			sb.WriteString(pre.String())
 			switch op.Render {
+			case "direct":
+				fmt.Fprintf(&sb, "rr%d := read(%s)\n", id, pe)
+			case "funcdirect":
+				fmt.Fprintf(&sb, "func fn%d() string {\nx%d := read(%s)\nreturn x%d\n}\nrr%d := fn%d()\n", id, id, pe, id, id, id)
+			case "ifdirect":
+				fmt.Fprintf(&sb, "var rr%d string\nif true {\nrr%d = read(%s)\n}\n", id, id, pe)
+			case "fordirect":
+				fmt.Fprintf(&sb, "var rr%d string\nfor it%d := 0; it%d < 1; it%d++ {\nrr%d = read(%s)\n}\n", id, id, id, id, id, pe)
+			case "shared":
+				usesShared = true
+				fmt.Fprintf(&sb, "rr%d := shr(%s)\n", id, pe)
 			case "funcparam", "funcglobal":
 				fmt.Fprintf(&sb, "func fn%d(%s string) string {\nx%d := read(%s)\nreturn x%d\n}\nrr%d := fn%d(%s)\n", id, pn, id, pn, id, id, id, pe)
 			case "if":
@@ -503,10 +591,19 @@ func (h *c17Hist) render(seed uint64) []*c17Segment {
 			cur.OpIdx = append(cur.OpIdx, i)
 		case "exists":
 			var pre strings.Builder
-			pe := operand(id, "p", op.POrigin, op.Path, &pre)
+			pe := operand(id, "p", op.POrigin, op.spelled(), &pre)
 			pn := fmt.Sprintf("ep%d", id)
 			sb.WriteString(pre.String())
 			switch op.Render {
+			case "direct", "fordirect":
+				fmt.Fprintf(&sb, "ee%d := exists(%s)\n", id, pe)
+			case "funcdirect":
+				fmt.Fprintf(&sb, "func fn%d() bool {\nreturn exists(%s)\n}\nee%d := fn%d()\n", id, pe, id, id)
+			case "ifdirect":
+				fmt.Fprintf(&sb, "var ee%d bool\nif true {\nee%d = exists(%s)\n}\n", id, id, pe)
+			case "shared":
+				usesShared = true
+				fmt.Fprintf(&sb, "ee%d := she(%s)\n", id, pe)
 			case "funcparam", "funcglobal":
 				fmt.Fprintf(&sb, "func fn%d(%s string) bool {\nreturn exists(%s)\n}\nee%d := fn%d(%s)\n", id, pn, pn, id, id, pe)
 			case "if":
@@ -872,7 +969,7 @@ func c17Report(r *Run, h *c17Hist, seed uint64, kind, detail string, cfPass bool
 	// 2. simplify renderings and origins
 	for i := range cur.Ops {
 		for _, simp := range []func(*c17Op){
-			func(o *c17Op) { o.Render = "top" },
+			func(o *c17Op) { o.Render = "direct" },
 			func(o *c17Op) {
 				if o.POrigin != "" && o.POrigin != "runtime" {
 					o.POrigin = "literal"
